@@ -1043,6 +1043,18 @@ func (se *specEnv) call(n *SCall) Value {
 			se.fail("jsondecode of non-sequence")
 		}
 		return e.fromTerm(T, c.App("jsonDecode_"+sortName(T), sortOf(T), e.seqTerm(se.st, sq)), "jsondecode")
+	case "loopvar":
+		// loopvar("time.Duration"): the loop-carried variable of that type, when
+		// the loop has exactly one (bound by the loop the invariant belongs to)
+		str, ok := n.Args[0].(*SStr)
+		if !ok {
+			se.fail("loopvar(\"type\")")
+		}
+		f, ok := se.vars["#loopvar:"+str.V]
+		if !ok {
+			se.fail("loopvar(%q): the loop has no unique loop-carried variable of that type", str.V)
+		}
+		return f(se.st)
 	case "resultof":
 		// resultof("x509.NewCertPool"): the value returned by the unique call of
 		// that function in the function under verification (a way to refer to a
